@@ -114,8 +114,8 @@ def build_curve(spec):
     data0, truth = gen.make_arrays(
         np.random.default_rng(spec["noise_seed"]), spec["model"],
         spec["params"], cp=spec["cp"], baseline=spec["baseline"],
-        n_app=spec["n"], n_ret=spec["n"], zmax=spec["zmax"],
-        zmin=spec["zmin"], law=spec["law"])
+        n_app=spec["n"], n_ret=spec.get("n_ret", spec["n"]),
+        zmax=spec["zmax"], zmin=spec["zmin"], law=spec["law"])
     span = float(np.max(truth["clean"]) - spec["baseline"])
     sigma = span / spec["snr"] if spec["snr"] else 0.0
     data = dict(data0)
